@@ -414,7 +414,13 @@ pub struct SlotSpec {
 pub enum Action {
     StartServer,
     Send { sock: u32, req: ReqSpec },
-    Health { id: u32 },
+    /// a TCP connection to the health-check port; `reset`: the client resets it at once, so the
+    /// server's write fails while the connection itself is accepted normally
+    Health {
+        id: u32,
+        #[serde(default)]
+        reset: bool,
+    },
     Signal { sig: i32 },
     /// deliver the signal when the scheduler has taken this many steps (a crash point of a baseline)
     SignalAtStep { step: u64, sig: i32 },
